@@ -124,9 +124,12 @@ class Renderer:
     BOOLS = ["a.b", "a.c", "b0.b", "b0.c", "c0.b", "c0.c"]
     INTS = ["a.i", "a.j", "b0.i", "b0.j", "c0.i", "c0.j"]
 
-    def __init__(self, context, wrapper="ret", label_style="const", void_expr="call"):
+    def __init__(self, context, wrapper="ret", label_style="const", void_expr="call", value_style="int"):
         self.context = context
         self.wrapper = wrapper
+        # value_style 'tr-same': a string-valued body in which every constant is the same qsTr("same") call
+        # (equal sub-expressions repeated at positions that do not dominate each other)
+        self.value_style = value_style
         self.void_expr = void_expr      # expression statements of callbacks: 'call' | 'literal' | 'enum' | 'object' | 'read'
 
         self.label_style = label_style      # case labels: 'const' | 'ternary' | 'and' | 'or' (labels spanning several blocks)
@@ -188,6 +191,10 @@ class Renderer:
         pad = "    " * ind
         tag = s[0]
         v = self.context == "value"
+        if v and self.value_style == "tr-same" and tag in ("A", "E", "R"):
+            text = 'qsTr("same")'
+            return {"A": (f"{pad}r = {text};", ("set", "r", ("k", "same"))), "E": (f"{pad}{text};", ("expr", ("k", "same"))),
+                    "R": (f"{pad}return {text};", ("ret", ("k", "same")))}[tag]
         if tag == "A":
             k = self.const()
             return (f"{pad}r = {k};", ("set", "r", ("k", k))) if v else \
@@ -272,7 +279,9 @@ class Renderer:
         """-> (source text of the binding value / handler body, reference AST)"""
         body, ast = self.stmts(skeleton, 2)
         if self.context == "value":
-            if self.wrapper == "ret":
+            if self.value_style == "tr-same":
+                text = "{\n        let r = \"\";\n" + body + ("\n        return r;" if self.wrapper == "ret" else "") + "\n    }"
+            elif self.wrapper == "ret":
                 text = "{\n        let r = 0;\n" + body + "\n        return r;\n    }"
                 ast = [("let", "r", ("k", 0))] + ast + [("ret", ("var", "r"))]
             elif self.wrapper == "completion":
